@@ -93,6 +93,7 @@ class Var:
         self.lb = lb
         self.ub = ub
         self.type = type
+        self.primal = None
 
     # arithmetic via Lin
     def __add__(self, o):
@@ -218,6 +219,12 @@ class Container:
                 return i
         return default
 
+    def __getattr__(self, name):
+        for i in self.__dict__.get("items", []):
+            if i.name == name:
+                return i
+        raise AttributeError(name)
+
 
 class Formulation:
     """What the solver would be asked to solve at one point in time."""
@@ -268,6 +275,9 @@ class RxnLP:
     @property
     def reversibility(self):
         return self.lower_bound < 0 < self.upper_bound
+
+    def knock_out(self):
+        self.lower_bound, self.upper_bound = 0.0, 0.0
 
     @property
     def flux(self):
@@ -344,16 +354,19 @@ class ModelLP:
     # -- context
     def _absint_enter(self):
         s = self.solver
-        self._stack.append((s.objective, list(s.variables.items), list(s.constraints.items), [(r, r.lower_bound, r.upper_bound) for r in self.reactions]))
+        extra = [(g, g.functional) for g in getattr(self, "genes", [])]
+        self._stack.append((s.objective, list(s.variables.items), list(s.constraints.items), [(r, r.lower_bound, r.upper_bound) for r in self.reactions], extra))
         return self
 
     def _absint_exit(self):
-        obj, variables, constraints, bounds = self._stack.pop()
+        obj, variables, constraints, bounds, extra = self._stack.pop()
         self.solver.objective = obj
         self.solver.variables.items = variables
         self.solver.constraints.items = constraints
         for r, lb, ub in bounds:
             r.lower_bound, r.upper_bound = lb, ub
+        for g, flag in extra:
+            g.functional = flag
 
     # -- cobra.Model surface
     @property
@@ -485,3 +498,30 @@ class ModelCopy:
         for r in reactions:
             self.removed.append(getattr(r, "id", r))
         self.remove_orphans = remove_orphans
+
+
+class GeneLP:
+    """Stand-in for cobra.Gene: knock_out() clears the flag and zeroes every reaction whose rule is then false."""
+
+    def __init__(self, gid: str, model: "ModelLP"):
+        self.id = gid
+        self.name = gid
+        self.functional = True
+        self.model = model
+
+    def knock_out(self):
+        self.functional = False
+        flags = {g.id: g.functional for g in self.model.genes}
+        for r in self.model.reactions:
+            rule = self.model.rules.get(r.id)
+            if rule is not None and not rule(flags):
+                r.knock_out()
+
+    def __hash__(self):
+        return hash(self.id)
+
+    def __eq__(self, o):
+        return self is o
+
+    def __repr__(self):
+        return f"GeneLP({self.id})"
